@@ -52,9 +52,9 @@ def handle (st : St) : List Str → St × Str
       | _ => (st, str "bad-op")
     else if op = str "gen" then
       match rest, st.targets with
-      | [name, acc, ns, ft, fname, vars, consts, imps, ie, fe, te], t :: ts =>
+      | [name, acc, ns, ft, fname, vars, consts, imps, ie, fe, te, sil], t :: ts =>
         let g : Gen := ⟨unhex name, ids acc, if ns = str "nil" then none else some (unhexList ns), unhex ft, unhex fname,
-          unhexList vars, unhexList consts, unhexList imps, ie = ['1'], fe = ['1'], ids te⟩
+          unhexList vars, unhexList consts, unhexList imps, ie = ['1'], fe = ['1'], ids te, sil = ['1']⟩
         ({ st with targets := { t with gens := g :: t.gens } :: ts }, str "ok")
       | _, _ => (st, str "bad-op")
     else if op = str "dir" then
